@@ -1,24 +1,71 @@
 (* C19 — The engine shipped in browser bundles plays stories like the main engine.
-   The browser engine is a FORK of the main engine's source without hooks and @join.  It is not modelled
-   separately: the one model Engine/Engine.v is compared, on every run, with BOTH real engines on generated stories
-   of the common feature subset (Browser.common_story: no hook command, no join marker, no '-> @join' choice, all
-   sections 0), and the two real engines with each other (outputs, variables, save documents, undo/redo/save-load
-   histories).  What is PROVED here (partial, named so) is that on the common subset the model never exercises any
-   of the three things the fork lacks - which is why one model serves both:
-     (1) no '-> @join' choice is ever offered and every offered choice has section 0, so choose() always takes the
-         ordinary-navigation path and the section filter of _render_passage hides nothing;
-     (2) while no hook is registered the turn_end run is the identity; registrations change only through hook
-         commands (frame lemmas, Proofs/EngineBase.v: HooksStep), which the subset excludes;
-     (3) the section test is vacuous for section-0 choices.
-   Not proved: a step-by-step simulation between two separate models (there is only one model); that the fork's
-   source differs from the main engine only in functions this argument accounts for is the generated fork_diff
-   obligation of the harness (ast comparison of the two files on every run); the bundle-content clause is
-   differential only (create_browser_bundle vs compile_file, copied engine vs template). *)
+   The browser engine (bardic/templates/browser/engine_browser.py) is a hand-maintained FORK of the main engine
+   without hooks and without @join.  It has its OWN model, Engine/BrowserEngine.v, written function by function from
+   the fork's source: no hook registry (hook tokens fall through the if/elif chains), no join markers / sections /
+   '-> @join' path, choose() ends with goto().  Engine/BrowserCheck.v runs it on operation histories.
+
+   PROVED here (Proofs/BrowserSim.v), for every oracle for author code (also code that fails anywhere), every list of
+   context names, every story of the common subset (Browser.common_story: no hook command, no join marker, no
+   '-> @join' choice, all sections 0 - at any nesting depth), all initial variables and EVERY list of operations
+   (choose with any index, undo, redo, goto with any spec, reset, reads, submit_inputs, save / load / reload / rejected
+   load):
+     browser_model_refines_main_model      the two models produce the same observation (ok / exception kind / bool)
+                                           and the same view (position, variables, used choices, content, offered
+                                           choices, directives, inputs, can_undo / can_redo, scope depth) at every
+                                           step; only the hook registry and the join index - which the fork does not
+                                           have - are not compared;
+     browser_run_is_main_run_erased        the same, read as an equation for the browser model's run;
+     main_model_never_uses_hooks_or_join   on a common story no reachable state of the MAIN model has a hook
+                                           registered or a non-zero join index (the invariant behind the refinement);
+     common_tokens_render_alike            the two token renderers are in simulation on every token tree of the
+                                           subset (induction over token trees), and the choices they hand up are
+                                           common-subset choices.
+   The four older lemmas (kept, still true; named _partial because each is one ingredient of the refinement): offered
+   choices of a common story are plain, a plain choice takes the ordinary-navigation path, the turn_end run is the
+   identity while nothing is registered, the section test is vacuous for section-0 choices.
+   The hypothesis is needed: [outside_the_subset_the_models_differ] (a story with a turn_end hook).
+
+   NOT proved, carried by the tie (harness/c19.py, every run): that BrowserEngine.v reads engine_browser.py correctly
+   (real fork vs browser model inside Coq on generated histories) and Engine.v reads engine.py correctly (real main
+   engine vs main model); that the fork differs from the main engine only in the functions BrowserEngine.v models
+   separately (generated fork_diff obligation: ast comparison of the two files); save documents as JSON text (the
+   models abstract save -> JSON -> load as in C05); stories with import lines (the fork's import step differs and is
+   outside both models); the bundle-content clause (create_browser_bundle vs compile_file, copied engine vs template). *)
 From Coq Require Import String Ascii List Bool ZArith Arith.
-From Bardic Require Import PyStr Value Compiled Engine EngineBase EngineNav EngineSem EngineHooks EngineChoice
-     Browser Graph GraphProofs BrowserProofs.
+From Bardic Require Import PyStr Value Compiled Engine PyMini EngineCheck EngineBase EngineNav EngineSem EngineHooks
+     EngineChoice Browser Graph GraphProofs BrowserProofs BrowserEngine BrowserCheck BrowserSim.
 Import ListNotations.
 
+(* ---------------------------------------------------------------------------------------- *)
+(* the refinement *)
+Theorem browser_model_refines_main_model : forall orc ctxkeys st,
+  common_story st = true ->
+  forall v0 ops,
+    map forget_hj_step (run_all orc ctxkeys st v0 ops) = map forget_hj_step (run_all_b orc ctxkeys st v0 ops).
+Proof. exact browser_sim. Qed.
+Print Assumptions browser_model_refines_main_model.
+
+Theorem browser_run_is_main_run_erased : forall orc ctxkeys st,
+  common_story st = true ->
+  forall v0 ops, run_all_b orc ctxkeys st v0 ops = map forget_hj_step (run_all orc ctxkeys st v0 ops).
+Proof. exact browser_sim_erased. Qed.
+Print Assumptions browser_run_is_main_run_erased.
+
+Theorem main_model_never_uses_hooks_or_join : forall orc ctxkeys st,
+  common_story st = true ->
+  forall v0 ops,
+    Forall (fun x => v_hooks (snd x) = [] /\ Forall (fun kv => snd kv = 0) (v_join (snd x)))
+           (run_all orc ctxkeys st v0 ops).
+Proof. exact main_hooks_join_idle. Qed.
+Print Assumptions main_model_never_uses_hooks_or_join.
+
+Theorem common_tokens_render_alike : forall orc ctxkeys t,
+  nohj_tok t = true -> SimM Rtok (render_tok orc ctxkeys t) (render_tok_b orc ctxkeys t).
+Proof. exact sim_render_tok. Qed.
+Print Assumptions common_tokens_render_alike.
+
+(* ---------------------------------------------------------------------------------------- *)
+(* the ingredients proved earlier *)
 Theorem common_subset_offers_only_plain_choices_partial : forall orc ctxkeys st pid s s' o,
   common_story st = true -> render_passage orc ctxkeys st pid s = (s', Ok o) ->
   forall rc, List.In rc (o_choices o) -> plain_choice (rc_choice rc).
@@ -45,11 +92,80 @@ Theorem section_filter_vacuous_partial : forall c fd, ch_section c = 0 -> dir_se
 Proof. exact section_test_vacuous. Qed.
 Print Assumptions section_filter_vacuous_partial.
 
-(* non-vacuity: a story of the common subset, and one outside it *)
+(* ---------------------------------------------------------------------------------------- *)
+(* non-vacuity *)
+Local Open Scope string_scope.
+
+(* a story of the common subset, and one outside it *)
 Definition plain_story : story :=
   mkStory "A" [("A"%string, mkPassage "A" [] [TText "a"; TCond [Branch "x" [TText "b"] [Choice [TText "c"] "A" "" None true 0 [] []]]]
                   [Choice [TText "go"] "A" "" None false 0 [] []] [TPyStmt "x = 1"] [] [])] [] [].
 Definition hooked_story : story :=
-  mkStory "A" [("A"%string, mkPassage "A" [] [TText "a"] [] [THook true "turn_end" "A"] [] [])] [] [].
+  mkStory "A" [("A"%string, mkPassage "A" [] [TText "a"] [Choice [TText "go"] "A" "" None true 0 [] []]
+                                          [THook true "turn_end" "H"] [] []);
+               ("H"%string, mkPassage "H" [] [TText "tick"] [] [] [] [])] [] [].
 Example common_examples : common_story plain_story = true /\ common_story hooked_story = false.
 Proof. vm_compute. split; reflexivity. Qed.
+
+(* a common story with a jump chain, a loop (with a per-item choice), a conditional block carrying a choice (keyword
+   argument), a one-time choice, a conditional choice and a parameterised passage; author code through the PyMini
+   oracle *)
+Definition ch (t tg a : string) (c : option string) (sticky : bool) : choice := Choice [TText t] tg a c sticky 0 [] [].
+Definition demo_story : story :=
+  mkStory "Init"
+    [("Init", mkPassage "Init" [] [TText "Welcome. "; TJump "Hub" ""] [] [TPyStmt "gold = 5"; TPyStmt "items = [1, 2]"] [] []);
+     ("Hub", mkPassage "Hub" []
+        [TText "Gold "; TExpr "gold"; TText ". ";
+         TLoop "i" "items" [TText "Item "; TExpr "i"; TText ". "] [Choice [TText "Take "; TExpr "i"] "Shop" "i" None true 0 [] []];
+         TCond [Branch "gold > 3" [TText "Rich. "] [ch "Buy" "Shop" "cost=2" None true]]]
+        [ch "Ask once" "Hub" "" None false; ch "Poor only" "Hub" "" (Some "gold < 3") true; ch "Shop for 3" "Shop" "3" None true]
+        [] [] []);
+     ("Shop", mkPassage "Shop" [mkParam "cost" None]
+        [TText "Paid "; TExpr "cost"; TText ". "; TPyStmt "gold = gold - cost"; TJump "Hub" ""] [] [] [] [])]
+    [] [].
+Definition demo_tables : tables :=
+  mkTables
+    [("gold", Some (EName "gold")); ("i", Some (EName "i")); ("items", Some (EName "items")); ("cost", Some (EName "cost"));
+     ("gold > 3", Some (ECmp Gt (EName "gold") (EInt 3))); ("gold < 3", Some (ECmp Lt (EName "gold") (EInt 3)))]
+    [("gold = 5", Some [SAssign "gold" (EInt 5)]); ("items = [1, 2]", Some [SAssign "items" (EList [EInt 1; EInt 2])]);
+     ("gold = gold - cost", Some [SAssign "gold" (EBin Sub (EName "gold") (EName "cost"))])]
+    [("cost=2", Some ([], [("cost", EInt 2)])); ("3", Some ([EInt 3], [])); ("1", Some ([EInt 1], [])); ("i", Some ([EName "i"], []))]
+    [].
+Definition demo_ops : list op :=
+  [OpChoose 0; OpChoose 3; OpUndo; OpRedo; OpChoose 2; OpSave; OpChoose 0; OpGoto "Shop(1)"; OpLoad; OpReset; OpChoose 0;
+   OpReload; OpInput "nm" "Zed"; OpBadLoad; OpChoose 99; OpUndo; OpRead].
+
+Definition demo_main := run_all (mini_orc demo_tables) [] demo_story [] demo_ops.
+Definition demo_browser := run_all_b (mini_orc demo_tables) [] demo_story [] demo_ops.
+
+(* both models, evaluated: equal step by step (an instance of the theorem), with a non-trivial history - the one-time
+   choice disappears and comes back after reset, the conditional choice appears once gold < 3, "Buy" binds a keyword
+   argument, a loop choice whose argument is out of scope fails in both, undo/redo/save/load move between situations;
+   the main model's join index is not empty, so the erasure is doing work *)
+Example refinement_example :
+  common_story demo_story = true /\
+  map forget_hj_step demo_main = map forget_hj_step demo_browser /\
+  map fst demo_main =
+    [ObsOk; ObsOk; ObsOk; ObsBool true; ObsBool true; ObsExc ValueError; ObsOk; ObsOk; ObsOk; ObsOk; ObsOk; ObsOk; ObsOk;
+     ObsOk; ObsExc ValueError; ObsExc IndexError; ObsBool false; ObsOk] /\
+  map (fun x => v_content (snd x)) (firstn 3 demo_browser) =
+    ["Welcome. " ++ String "010" (String "010" "Gold 5. Item 1. Item 2. Rich. ");
+     "Gold 5. Item 1. Item 2. Rich. ";
+     "Paid 2. " ++ String "010" (String "010" "Gold 3. Item 1. Item 2. ")] /\
+  map (fun x => map (fun c => fst (fst c)) (v_choices (snd x))) (firstn 3 demo_browser) =
+    [["Ask once"; "Shop for 3"; "Take 1"; "Take 2"; "Buy"];
+     ["Shop for 3"; "Take 1"; "Take 2"; "Buy"];
+     ["Shop for 3"; "Take 1"; "Take 2"]] /\
+  map (fun x => v_join (snd x)) (firstn 1 demo_main) = [[("Init", 0); ("Hub", 0)]] /\
+  map (fun x => v_join (snd x)) (firstn 1 demo_browser) = [[]].
+Proof. vm_compute. repeat split; reflexivity. Qed.
+
+(* the hypothesis is needed: with a turn_end hook the main model appends the hook passage's text, the fork's model
+   (which ignores hook commands, as the fork does) does not *)
+Definition hooked_tables : tables := mkTables [] [] [] [].
+Example outside_the_subset_the_models_differ :
+  models_differ (hooked_story, hooked_tables, [], [OpChoose 0], []) = true /\
+  map (fun x => v_content (snd x)) (run_all (mini_orc hooked_tables) [] hooked_story [] [OpChoose 0]) =
+    ["a"; "a" ++ String "010" (String "010" "tick")] /\
+  map (fun x => v_content (snd x)) (run_all_b (mini_orc hooked_tables) [] hooked_story [] [OpChoose 0]) = ["a"; "a"].
+Proof. vm_compute. repeat split; reflexivity. Qed.
